@@ -53,7 +53,7 @@ FileMode File::getMode() {
 
 bool File::eof() {
     if (mode != FileMode::READ) std::abort();
-    return ifile->eof();
+    return ifile->peek() == std::ifstream::traits_type::eof();
 }
 
 void File::close() {
